@@ -17,10 +17,12 @@
    same range, so "not enough bytes" is Err (None) everywhere and no read can panic;
    usize overflow of offsets (buffers near 2^64 bytes) is not modelled.
 
-   Definitions only, no proofs.  The model is faithful to the code as it is: Float(+-0.0)
-   is written as the ZERO discriminant and read back as Int(0); every NaN is written as the
-   NAN discriminant and read back as the canonical quiet NaN; the column count is
-   truncated to u16 and byte lengths to u32 exactly as `as u16` / `as u32` do. *)
+   Definitions only, no proofs.  The model is faithful to the code as it is: every NaN is
+   written as the NAN discriminant and read back as the canonical quiet NaN; the column count
+   is truncated to u16 and byte lengths to u32 exactly as `as u16` / `as u32` do.
+   History: before /repo commit a939896 the writer sent Float(+-0.0) to the data-less ZERO
+   discriminant, which reads back as Int(0) (finding F-C33-1, fixed); now +-0.0 falls through
+   to the POS_FLOAT arm (`-0.0 < 0.0` is false) and keeps its 8 bit-pattern bytes. *)
 From Coq Require Import ZArith List Bool.
 From TV Require Import Lib.MachInt Gen.RowSerde.
 Import ListNotations.
@@ -54,7 +56,7 @@ Definition F64_NEG_ZERO : Z := 0x8000000000000000.
 Definition F64_CANON_NAN : Z := 0x7FF8000000000000.      (* f64::NAN *)
 (* f.is_nan(): magnitude bits above the infinity pattern *)
 Definition f64_is_nan (p : Z) : bool := F64_INF <? p mod 2 ^ 63.
-(* f == 0.0: +0.0 or -0.0 *)
+(* f == 0.0: +0.0 or -0.0 (no longer used by the writer; kept for the IEEE bridge of f64_lt_zero) *)
 Definition f64_is_zero (p : Z) : bool := (p =? 0) || (p =? F64_NEG_ZERO).
 (* f < 0.0 for a non-NaN f: sign bit set and not -0.0 *)
 Definition f64_lt_zero (p : Z) : bool := negb (f64_is_nan p) && (F64_NEG_ZERO <? p).
@@ -102,7 +104,6 @@ Definition ser_value (v : value) : list Z :=
       else if p =? F64_NEG_INF then [D_NEG_INFINITY]
       else if p =? F64_INF then [D_POS_INFINITY]
       else if f64_lt_zero p then D_NEG_FLOAT :: be_bytes 8 p
-      else if f64_is_zero p then [D_ZERO]
       else D_POS_FLOAT :: be_bytes 8 p
   | VText b => D_TEXT :: be_bytes 4 (wrap_u 32 (blen b)) ++ b
   | VBlob b => D_BLOB :: be_bytes 4 (wrap_u 32 (blen b)) ++ b
@@ -134,7 +135,7 @@ Definition value_size (v : value) : Z :=
   | VNull => 1
   | VInt i => if i =? 0 then 1 else 1 + 8
   | VFloat p =>
-      if f64_is_nan p || (p =? F64_NEG_INF) || (p =? F64_INF) || f64_is_zero p then 1 else 1 + 8
+      if f64_is_nan p || (p =? F64_NEG_INF) || (p =? F64_INF) then 1 else 1 + 8
   | VText b => 1 + 4 + blen b
   | VBlob b => 1 + 4 + blen b
   | VVector fs => 1 + 4 + blen fs * 4
@@ -271,17 +272,17 @@ Definition deser_row_at (data : list Z) (off : Z) : option (list value * Z) :=
   else None.
 
 (* ------------------------------------------------------------------ what the format does to a value *)
-(* the value that comes back (proved in Proof/RowSerde.v): identity except Float zero / NaN *)
+(* the value that comes back (proved in Proof/RowSerde.v): identity except that a NaN loses its payload *)
 Definition canon_value (v : value) : value :=
   match v with
-  | VFloat p => if f64_is_nan p then VFloat F64_CANON_NAN else if f64_is_zero p then VInt 0 else VFloat p
+  | VFloat p => if f64_is_nan p then VFloat F64_CANON_NAN else VFloat p
   | _ => v
   end.
 
 (* values that come back bit for bit *)
 Definition value_exact (v : value) : bool :=
   match v with
-  | VFloat p => negb (f64_is_zero p) && (negb (f64_is_nan p) || (p =? F64_CANON_NAN))
+  | VFloat p => negb (f64_is_nan p) || (p =? F64_CANON_NAN)
   | _ => true
   end.
 
@@ -366,11 +367,6 @@ Fixpoint rows_same (a b : list (list value)) : bool :=
   | x :: a', y :: b' => row_same x y && rows_same a' b'
   | _, _ => false
   end.
-
-(* the recorded finding's class: the row holds a Float(+0.0) or Float(-0.0) *)
-Definition value_zero_float (v : value) : bool :=
-  match v with VFloat p => f64_is_zero p | _ => false end.
-Definition row_zero_float (row : list value) : bool := existsb value_zero_float row.
 
 (* ------------------------------------------------------------------ C. PartitionSpiller, one partition *)
 (* write_row over the rows in order: (spilled?, byte_size).  Rows pushed before the spill are
